@@ -39,6 +39,34 @@ let conn_of (s : string) : Datatypes.nat =
   nat_of_int (if S.get s 0 = 'h' then 500 + n else n)
 let conn_name (n : int) : string = if n >= 500 then "h" ^ string_of_int (n - 500) else "c" ^ string_of_int n
 
+
+let scode_of (s : string) : Status.code =
+  match s with
+  | "system.accessDenied" -> Status.AccessDenied | "system.internalError" -> Status.InternalError
+  | "system.invalidParams" -> Status.InvalidParams | "system.invalidQuery" -> Status.InvalidQuery
+  | "system.methodNotFound" -> Status.MethodNotFound | "system.noSubscription" -> Status.NoSubscription
+  | "system.notFound" -> Status.NotFound | "system.timeout" -> Status.Timeout | "system.invalidRequest" -> Status.InvalidRequest
+  | "system.unsupportedProtocol" -> Status.UnsupportedProtocol | "system.subjectTooLong" -> Status.SubjectTooLong
+  | "system.deleted" -> Status.Deleted | "system.badRequest" -> Status.BadRequest | "system.methodNotAllowed" -> Status.MethodNotAllowed
+  | "system.serviceUnavailable" -> Status.ServiceUnavailable | "system.forbidden" -> Status.Forbidden
+  | "system.notImplemented" -> Status.NotImplemented | _ -> Status.OtherCode
+
+(* abstract resource id of a concrete one (as harness/internal/gw AbsRID does for the generated ids) *)
+let abs_of_rid (rid : string) : string =
+  let pre = "test.r" in
+  if S.length rid > 6 && S.sub rid 0 6 = pre then begin
+    let rest = S.sub rid 6 (S.length rid - 6) in
+    match int_of_string_opt rest with
+    | Some n when n >= 0 -> string_of_int n
+    | _ ->
+      (match S.index_opt rest '?' with
+       | Some i when S.length rest > i + 3 && S.sub rest (i + 1) 2 = "q=" ->
+         (match int_of_string_opt (S.sub rest 0 i), int_of_string_opt (S.sub rest (i + 3) (S.length rest - i - 3)) with
+          | Some n, Some k when k >= 0 && k < 10 -> string_of_int n ^ "q" ^ string_of_int k
+          | _ -> "x" ^ hex rid)
+       | _ -> "x" ^ hex rid)
+  end else "x" ^ hex rid
+
 let other_tbl : (string, int) Hashtbl.t = Hashtbl.create 16
 let other_of s = try Hashtbl.find other_tbl s with Not_found -> let n = Hashtbl.length other_tbl in Hashtbl.add other_tbl s n; n
 
@@ -87,6 +115,7 @@ type stats = { mutable frames : int; mutable qs : int; mutable events : int; mut
 let line_tbl : int array ref = ref [||]
 let crash_txt : string ref = ref ""
 let stop_bad : (string * int) list ref = ref []
+let http_bad : (string * string * int) list ref = ref []
 let parse_file (path : string) : Trace.tev list * stats =
   let ic = open_in path in
   let st = { frames = 0; qs = 0; events = 0; lines = 0; sites = []; stall = false; errlogs = 0 } in
@@ -95,6 +124,9 @@ let parse_file (path : string) : Trace.tev list * stats =
   let push e = out := e :: !out; linenos := st.lines :: !linenos in
   let inq = ref false and truth = ref [] and subs = ref [] and ents = ref [] and qfinal = ref false in
   let reqtab : (int, Datatypes.nat) Hashtbl.t = Hashtbl.create 64 in
+  let http_open : (string, int * bool) Hashtbl.t = Hashtbl.create 8 in
+  let http_rids : (string, Datatypes.nat) Hashtbl.t = Hashtbl.create 8 in
+  let req_conn : (int, string) Hashtbl.t = Hashtbl.create 64 in
   let qreq : (int, string) Hashtbl.t = Hashtbl.create 16 in
   let tok_of (s : string) : Datatypes.nat =
     if s = "-" then nat_of_int 0
@@ -155,6 +187,54 @@ let parse_file (path : string) : Trace.tev list * stats =
         | ["CONNEV"; c; "token"; tok; _] -> push (Trace.TConnToken (conn_of c, tok_of tok))
         | ["TOKTASK"; c; tok; tid] -> push (Trace.TTokenTask (conn_of c, tok_of tok, tid_of tid))
         | ["SITE"; "reaccess.deferred"; c; r] when S.length c > 1 && S.get c 0 = 'c' -> st.sites <- "reaccess.deferred" :: st.sites; push (Trace.TReaccessDeferred (conn_of c, rid_of r))
+        | ["HTTP"; h; meth; urlhex] ->
+          (* the URL against the path model (Pure/HttpPath.v, C14); the request is then presented to the connection-level
+             monitors as a connection that makes one get / call request *)
+          let url = unhex urlhex in
+          let (path, query) = (match S.index_opt url '?' with Some i -> (S.sub url 0 i, S.sub url (i + 1) (S.length url - i - 1)) | None -> (url, "")) in
+          let api = chars_of_string "/api/" in
+          let trailing = S.length path > 5 && S.get path (S.length path - 1) = '/' in
+          let m = (match meth with "GET" -> 0 | "HEAD" -> 1 | "POST" -> 2 | _ -> 3) in
+          let (rid_s, act_s) =
+            if m = 2 then (let (r, a) = HttpPath.path_to_rid_action (chars_of_string path) (chars_of_string query) api in (string_of_chars r, string_of_chars a))
+            else (string_of_chars (HttpPath.path_to_rid (chars_of_string path) (chars_of_string query) api), "") in
+          let valid = not trailing && m < 3 && Rid.is_valid_rid (chars_of_string rid_s) true
+                      && (m <> 2 || RidPart.is_valid_part (chars_of_string act_s)) in
+          let c = conn_of h in
+          let r = rid_of (abs_of_rid rid_s) in
+          Hashtbl.replace http_open h (m, valid);
+          Hashtbl.replace http_rids h r;
+          push (Trace.THttpReq (c, nat_of_int m, valid, r));
+          push (Trace.TConn c);
+          if valid then push (Trace.TReq (c, nat_of_int 1, (if m = 2 then Trace.KCall else Trace.KGet), r, z_of_int 0))
+        | ["HTTPRESP"; h; status; kind; loc; hdrhex] ->
+          let c = conn_of h in
+          (* C17: whatever letter case a service uses, a meta header never reaches the response under a protected name
+             (canonicalisation model Pure/Header.v); the harness marks every meta header value with "evil" *)
+          L.iter (fun kv ->
+            match S.index_opt kv '=' with
+            | Some i ->
+              let k = S.sub kv 0 i and v = S.sub kv (i + 1) (S.length kv - i - 1) in
+              let ck = string_of_chars (Header.canon (chars_of_string k)) in
+              let has_evil = (let n = S.length v in let rec go j = j + 4 <= n && (S.sub v j 4 = "evil" || go (j + 1)) in go 0) in
+              if L.mem ck ["Content-Type"; "Access-Control-Allow-Origin"; "Access-Control-Allow-Credentials"; "Sec-Websocket-Extensions"; "Sec-Websocket-Protocol"]
+                 && (has_evil || ck <> k)
+              then http_bad := (conn_name (int_of_nat c), "protected-header-overridden", st.lines) :: !http_bad
+            | None -> ()) (S.split_on_char ';' (unhex hdrhex));
+          let (m, valid) = (try Hashtbl.find http_open h with Not_found -> (3, false)) in
+          let http_rid = (try Hashtbl.find http_rids h with Not_found -> nat_of_int 999) in
+          Hashtbl.remove http_open h;
+          let st_n = int_of_string status in
+          let (k, code) = (if kind = "empty" then (0, Status.OtherCode) else if kind = "data" then (2, Status.OtherCode)
+                           else (1, scode_of (S.sub kind 6 (S.length kind - 6)))) in
+          push (Trace.THttpResp (c, nat_of_int st_n, nat_of_int k, code));
+          if valid then begin
+            st.frames <- st.frames + 1;
+            (if k = 1 then push (Trace.TRespErr (c, nat_of_int 1, code_of (S.sub kind 6 (S.length kind - 6))))
+             else if m = 2 then push (Trace.TRespPayload (c, nat_of_int 1))   (* a resource response is a Location header only: nothing is handed over *)
+             else push (Trace.TRespOk (c, nat_of_int 1, [(http_rid, Trace.RModel [])])))   (* the body is not abstracted: a placeholder for the requested resource *)
+          end;
+          push (Trace.TDisc c)
         | ["LEGACY"; c] -> push (Trace.TLegacy (conn_of c))
         | ["THROTTLE"; n] -> push (Trace.TThrottle (nat_of_int (int_of_string n)))
         | ["SYSEV"; "tokenreset"; tids] -> push (Trace.TTokenResetEv (L.map tid_of (L.filter (fun x -> x <> "") (S.split_on_char ',' tids))))
@@ -183,6 +263,7 @@ let parse_file (path : string) : Trace.tev list * stats =
           if typ = "query" then Hashtbl.replace qreq (int_of_string n) r;
           let c = if S.length cid > 1 && (S.get cid 0 = 'c' || S.get cid 0 = 'h') then Some (conn_of cid) else None in
           Hashtbl.replace reqtab (int_of_string n) (rid_of r);
+          Hashtbl.replace req_conn (int_of_string n) cid;
           push (Trace.TMqReq (nat_of_int (int_of_string n), t, rid_of r, c, tok_of tok, chars_of_string (if meth = "-" then "" else meth)))
         | "MQRESP" :: n :: rest ->
           let r = (try Hashtbl.find reqtab (int_of_string n) with Not_found -> nat_of_int 999) in
@@ -206,7 +287,14 @@ let parse_file (path : string) : Trace.tev list * stats =
             | ["err"; code] -> Trace.OErr (code_of code)
             | ["resource"; r'] -> Trace.OResource (rid_of r')
             | _ -> Trace.OResult) in
-          push (Trace.TMqResp (nat_of_int (int_of_string n), r, o))
+          push (Trace.TMqResp (nat_of_int (int_of_string n), r, o));
+          (* a service error for a request made for an HTTP request (or, for requests that name no connection, for any
+             HTTP request in progress) *)
+          (match rest with
+           | ["err"; code] ->
+             let who = (try Hashtbl.find req_conn (int_of_string n) with Not_found -> "-") in
+             Hashtbl.iter (fun h _ -> if who = h || who = "-" then push (Trace.THttpSvcErr (conn_of h, scode_of code))) http_open
+           | _ -> ())
         | ["MQEV"; r; "change"; kv] -> st.events <- st.events + 1; push (Trace.TMqEv (rid_of r, Trace.SChange (ckv_of kv)))
         | ["MQEV"; r; "add"; idx; v] -> st.events <- st.events + 1; push (Trace.TMqEv (rid_of r, Trace.SAdd (z_of_int (int_of_string idx), cvalue_of v)))
         | ["MQEV"; r; "remove"; idx] -> st.events <- st.events + 1; push (Trace.TMqEv (rid_of r, Trace.SRemove (z_of_int (int_of_string idx))))
@@ -303,6 +391,15 @@ let run_traces (files : string list) : unit =
       L.iter (fun p ->
         Printf.printf "VIOL\t%s\t%s\t%s\t%s\t%s\t%d\n" path p k (conn_name (int_of_nat v.AccessMon.av_c))
           (rid_name (int_of_nat v.AccessMon.av_r)) ln) props) avs;
+    let hvs = HttpMon.hmonitor tr in
+    L.iter (fun (v : HttpMon.hviol) ->
+      let (p, k) = (match v.HttpMon.hv_kind with
+        | HttpMon.HStatusTable -> ("C17", "status-not-from-table")
+        | HttpMon.HCodeOrigin -> ("C17", "error-code-not-from-service-or-gateway-rule")
+        | HttpMon.HInvalidForwarded -> ("C14", "invalid-url-not-refused")) in
+      let pos = int_of_nat v.HttpMon.hv_pos in
+      let ln = if pos >= 1 && pos <= Array.length !line_tbl then !line_tbl.(pos - 1) else 0 in
+      Printf.printf "VIOL\t%s\t%s\t%s\t%s\t-\t%d\n" path p k (conn_name (int_of_nat v.HttpMon.hv_h)) ln) hvs;
     let vs = Monitors.monitor tr in
     L.iter (fun (v : Monitors.viol) ->
       let (p, k) = vkind_name v.Monitors.v_kind in
@@ -316,6 +413,8 @@ let run_traces (files : string list) : unit =
         Printf.printf "VIOL\t%s\t%s\t%s\t%s\t%s\t%d\n" path p k (conn_name (int_of_nat v.Monitors.v_c))
           (rid_name (int_of_nat v.Monitors.v_r)) ln) props) vs;
     L.iter (fun (what, ln) -> Printf.printf "VIOL\t%s\tC20\tshutdown-contract\tc0\t%s\t%d\n" path what ln) !stop_bad;
+    L.iter (fun (h, what, ln) -> Printf.printf "VIOL\t%s\tC17\t%s\t%s\t-\t%d\n" path what h ln) !http_bad;
+    http_bad := [];
     stop_bad := [];
     if st.stall then Printf.printf "STALL\t%s\n" path;
     if !crash_txt <> "" then begin
